@@ -18,6 +18,39 @@ REPO = os.environ.get("VERIF_REPO", "/repo")
 SPEC = os.path.join(VERIF, "spec")
 HARNESS = os.path.join(VERIF, "harness")
 BUILD = os.path.join(VERIF, "build")          # products of setup_cmd (shim etc.)
+
+
+def _world_reachable(path):
+    p = os.path.abspath(path)
+    while True:
+        try:
+            if os.stat(p).st_mode & 0o005 != 0o005:
+                return False
+        except OSError:
+            return False
+        if p == "/":
+            return True
+        p = os.path.dirname(p)
+
+
+def _runtime_build():
+    """Programs under test drop to unprivileged uids and must still be able to load the shim and run the stand-ins: if this
+    copy of /verif lives below a directory other users cannot enter (a snapshot under /root), use a private world-readable
+    copy of build/ for the duration of the check."""
+    global BUILD
+    if not os.path.isdir(BUILD) or _world_reachable(BUILD):
+        return
+    dst = os.path.join(os.environ.get("VERIF_SCRATCH_BASE", "/var/tmp"), "notqmail-verif.build.%d" % os.getpid())
+    shutil.rmtree(dst, ignore_errors=True)
+    shutil.copytree(BUILD, dst)
+    os.chmod(dst, 0o755)
+    for n in os.listdir(dst):
+        os.chmod(os.path.join(dst, n), 0o755)
+    atexit.register(shutil.rmtree, dst, True)
+    BUILD = dst
+
+
+_runtime_build()
 JAVA_CP = "/opt/veriftools/tla/tla2tools.jar:/opt/veriftools/tla/CommunityModules-deps.jar"
 NCPU = os.cpu_count() or 4
 
